@@ -6,13 +6,15 @@
    that Covariance inverts (and RCA / the 'covariance' priors are built from) is invariant under listing the
    samples in another order and under translation, is multiplied by c^2 when all features are multiplied by c,
    and is equivariant under every linear map of the features (rotations Q: cov(X Q^T) = Q cov(X) Q^T), all stated
-   along arbitrary directions.  NOT proved: that the (pseudo-)inverse and the whitening of RCA inherit these
-   relations (eigen-solvers are oracles), rotation equivariance of LFDA / LMNN / ITML / LSML / MMC and invariance
+   along arbitrary directions.  PROVED as well (C19_rotation_objectives): the documented objectives of NCA, MLKR and LMNN
+   have the same value at (L', Q X) as at (L, X) whenever L' Q = L (L' = L Q^T for an orthogonal Q), for every kernel
+   function, every label vector and every in-range table of target neighbours.  NOT proved: that the (pseudo-)inverse and the whitening of RCA inherit these
+   relations (eigen-solvers are oracles), rotation equivariance of LFDA / ITML / LSML / MMC and invariance
    of the optimum returned by external optimisers: these relations are checked on the real code by props/c19.py (bit-exact
    where the implementation only touches differences, toleranced otherwise). *)
 From Coq Require Import List Reals.
 From Coq Require Import Permutation Lra.
-From ML Require Import Ops Vec VecR MatR LinAlg ITML MMC LSML Objectives C11Proof C19Proof CovProof.
+From ML Require Import Ops Vec VecR MatR LinAlg ITML MMC LSML Objectives C11Proof C19Proof C19Rot CovProof.
 Import ListNotations.
 Open Scope R_scope.
 
@@ -62,3 +64,26 @@ Print Assumptions C19_covariance.
 Example C19_covariance_nonvacuous :
   quadformR (covR 1 [[0; 0]; [2; 0]; [4; 0]]) [1; 0] = 4.
 Proof. unfold quadform, cov, center, colmeans, mmulg, transp. cbn. lra. Qed.
+
+(* rotations: the objectives that the gradient-based learners document depend on L and X only through L x_i - L x_j *)
+Definition C19_rotation_objectives_stmt : Prop :=
+  forall (d : nat) (L L' Q : Rm), (forall x, wfvR d x -> mvmulR L' (mvmulR Q x) = mvmulR L x) ->
+  forall (ex : R -> R) (X : Rm), Forall (wfvR d) X ->
+    (forall y, @nca_obj ROps ex L' (map (mvmulR Q) X) y = @nca_obj ROps ex L X y) /\
+    (forall y, @mlkr_obj ROps ex L' (map (mvmulR Q) X) y = @mlkr_obj ROps ex L X y) /\
+    (forall reg y targets, Forall (Forall (fun j => (j < length X)%nat)) targets ->
+       @lmnn_obj ROps reg L' (map (mvmulR Q) X) y targets = @lmnn_obj ROps reg L X y targets).
+
+Theorem C19_rotation_objectives : C19_rotation_objectives_stmt.
+Proof.
+  intros d L L' Q HQ ex X HX. split; [|split].
+  - intro y. apply (nca_obj_rot d L L' Q HQ ex X y HX).
+  - intro y. apply (mlkr_obj_rot d L L' Q HQ ex X y HX).
+  - intros reg y targets HT. apply (lmnn_obj_rot d L L' Q HQ reg X y targets HX HT).
+Qed.
+Print Assumptions C19_rotation_objectives.
+
+(* non-vacuity: the quarter turn Q = [[0,-1],[1,0]] with L = identity and L' = Q^T *)
+Example C19_rotation_nonvacuous :
+  forall x, wfvR 2 x -> mvmulR [[0; 1]; [-1; 0]] (mvmulR [[0; -1]; [1; 0]] x) = mvmulR [[1; 0]; [0; 1]] x.
+Proof. intros [|a [|b [|? ?]]] H; try discriminate. cbn. f_equal; [|f_equal]; lra. Qed.
